@@ -188,6 +188,8 @@ func Generate(name, grammar string, opts []string) (*GenProgram, error) {
 		r.Const = gp.Consts[r.Name]
 	}
 	gp.setupSpec()
+	// the witness search (witness_search.go) needs the grammar text after the scratch directory is gone
+	rememberProgram(name, grammar, opts, gp.Consts)
 	return gp, nil
 }
 
@@ -748,9 +750,6 @@ func (gp *GenProgram) runClosure(r *Run, key string, fc *FuncContract, c int, fn
 		return
 	}
 	fv.vacuity()
-	for _, ob := range fv.obls {
-		ob.Query = fv.buildQuery(ob)
-	}
 	r.Fns = append(r.Fns, FnReport{Key: fname, Verified: true, NObl: len(fv.obls)})
 	r.Obls = append(r.Obls, fv.obls...)
 }
